@@ -1,1 +1,1234 @@
-"""placeholder"""
+"""Structural rules that need only the program model, call graph and CFGs:
+R-NOREC, R-GLOBAL, R-COPY, R-NONDET, R-SEED, R-RETRY, R-CARRY, R-LABELORDER,
+R-FIXPOINT, R-OWNFIRST."""
+from __future__ import annotations
+
+import ast
+from typing import Optional
+
+from ..cfg import cfg_of
+from ..model import AnalysisError, FuncInfo, NotConst, Repo, norm, short
+from ..report import Finding, RuleResult
+from . import rule
+from .common import (PUBLIC, all_public_closure, assigned_names, closure, entry, ext_calls, kwarg, names_in, own_walk,
+                     params_of, single_def, sites, strip_wrappers, try_const)
+
+# --------------------------------------------------------------------------- R-NOREC
+
+
+def _address_taken(ctx) -> set[str]:
+    """tucan functions referenced as values (not as the callee of a call): possible
+    targets of indirect calls"""
+    out = set()
+    for fi in ctx.cg.funcs.values():
+        callee_ids = {id(c.func) for c in own_walk(fi.node) if isinstance(c, ast.Call)}
+        for n in own_walk(fi.node):
+            if isinstance(n, (ast.Name, ast.Attribute)) and id(n) not in callee_ids and isinstance(getattr(n, "ctx", None), ast.Load):
+                if isinstance(n, ast.Attribute) and isinstance(n.value, ast.Name) and n.value.id == "self":
+                    if fi.cls is not None:
+                        m = ctx.repo.mro_method(fi.cls, n.attr)
+                        if m is not None:
+                            out.add(m.fq)
+                    continue
+                if isinstance(n, ast.Name) and n.id in params_of(fi.node):
+                    continue
+                r = ctx.repo.resolve_dotted(fi.module, n)
+                if r and r[0] == "func":
+                    out.add(r[1].fq)
+    return out
+
+
+def recursion_findings(ctx, fqs: list[str]) -> list[list[str]]:
+    cg = ctx.cg
+    edges = {q: set(cg.edges.get(q, ())) for q in fqs}
+    taken = _address_taken(ctx)
+    for q in fqs:
+        for cs in cg.sites.get(q, []):
+            if cs.kind in ("param", "unknown"):
+                edges[q] |= taken      # an indirect call may reach any address-taken tucan function
+    saved = cg.edges
+    cg.edges = {**saved, **edges}
+    try:
+        return cg.sccs(fqs)
+    finally:
+        cg.edges = saved
+
+
+_FIXTURE_NOREC = '''
+def _fx_a(n):
+    return _fx_b(n - 1) if n else 0
+
+def _fx_b(n):
+    return _fx_a(n)
+'''
+
+
+@rule("R-NOREC")
+def r_norec(ctx) -> RuleResult:
+    res = RuleResult("R-NOREC", "no call-graph cycle among tucan functions reachable from the public entry points (recursion depth would grow with the input)")
+    fis = all_public_closure(ctx)
+    fqs = [f.fq for f in fis]
+    cycles = recursion_findings(ctx, fqs)
+    for f in fis:
+        incyc = [c for c in cycles if f.fq in c]
+        res.inst(f.fq, "not on a call cycle", "fail" if incyc else "ok")
+    for c in cycles:
+        fi = ctx.cg.funcs[c[0]]
+        # name the call expression that closes the cycle
+        site = next((cs for cs in ctx.cg.sites[c[0]] if cs.kind == "tucan" and cs.target.fq in c), None)
+        node = site.node if site else fi.node
+        res.fail(Finding("R-NOREC", fi.module.rel, fi.qualname, " -> ".join(x.split(".", 1)[1] for x in c + [c[0]]),
+                         "recursive call cycle reachable from a public entry point; its depth is input dependent "
+                         "(refinement rounds / graph size), so large inputs end in RecursionError",
+                         line=getattr(node, "lineno", None), extra={"call": short(node)}))
+    # positive fixture: the detector must see a planted cycle on every run
+    fx = Repo(ctx.repo.root, {**ctx.repo.overlay, "tucan/_tsa_fixture_norec.py": _FIXTURE_NOREC})
+    fcg = fx.callgraph()
+    planted = fcg.sccs([q for q in fcg.funcs if "_tsa_fixture_norec" in q])
+    if not planted:
+        raise AnalysisError("R-NOREC self-test: planted recursion fixture not detected")
+    res.counts = {"functions_in_public_closure": len(fis), "cycles": len(cycles), "fixture_cycles_detected": len(planted)}
+    res.notes.append("indirect calls are resolved to every address-taken tucan function (none today)")
+    return res
+
+
+# --------------------------------------------------------------------------- R-GLOBAL
+
+MUTATORS = {"append", "extend", "insert", "pop", "popitem", "remove", "clear", "update", "setdefault", "add", "discard",
+            "sort", "reverse", "appendleft", "extendleft", "popleft", "__setitem__", "__delitem__"}
+MUTABLE_CTORS = {"list", "dict", "set", "deque", "Counter", "defaultdict", "bytearray"}
+
+
+def _is_mutable_literal(e: ast.expr) -> bool:
+    if isinstance(e, (ast.List, ast.Dict, ast.Set, ast.ListComp, ast.DictComp, ast.SetComp)):
+        return True
+    if isinstance(e, ast.Call) and isinstance(e.func, ast.Name) and e.func.id in MUTABLE_CTORS:
+        return True
+    return False
+
+
+def _root_name(e: ast.expr) -> Optional[str]:
+    while isinstance(e, (ast.Subscript, ast.Attribute)):
+        e = e.value
+    return e.id if isinstance(e, ast.Name) else None
+
+
+@rule("R-GLOBAL")
+def r_global(ctx) -> RuleResult:
+    res = RuleResult("R-GLOBAL", "no global/nonlocal, no store to module or class attributes, no mutation of module-level containers, mutable defaults or class-level containers from function bodies")
+    fis = [f for f in ctx.cg.funcs.values() if f.module.name not in ("tucan.visualization",)]
+    n_sites = _global_scan(ctx, res, fis)
+    # positive fixture: planted shared-state writes must be seen on every run
+    fx_src = "CACHE = {}\n\ndef _fx(k, acc=[]):\n    CACHE[k] = 1\n    acc.append(k)\n    return acc\n"
+    fx = Repo(ctx.repo.root, {**ctx.repo.overlay, "tucan/_tsa_fixture_global.py": fx_src})
+    sub = type(ctx)(fx, ctx.tier)
+    fres = RuleResult("fixture")
+    _global_scan(sub, fres, [fx.func("tucan._tsa_fixture_global._fx")])
+    if len(fres.findings) < 2:
+        raise AnalysisError("R-GLOBAL self-test: planted shared-state writes not detected")
+    res.counts.update({"functions": len(fis), "store_and_mutator_sites": n_sites, "fixture_hits": len(fres.findings)})
+    return res
+
+
+def _global_scan(ctx, res: RuleResult, fis) -> int:
+    repo = ctx.repo
+    n_sites = 0
+    for fi in fis:
+        fn = fi.node
+        params = set(params_of(fn))
+        local = set(assigned_names(fn)) | params
+        # aliases of module-level objects: x = MODULE_NAME
+        alias: dict[str, tuple] = {}
+        for n in own_walk(fn):
+            if isinstance(n, ast.Assign) and len(n.targets) == 1 and isinstance(n.targets[0], ast.Name):
+                src = n.value
+                rn = _root_name(src) if isinstance(src, (ast.Name, ast.Subscript, ast.Attribute)) else None
+                if rn and rn not in local:
+                    r = repo.resolve(fi.module, rn)
+                    if r and r[0] == "const":
+                        alias[n.targets[0].id] = r
+
+        def module_object(name: str):
+            if name in alias:
+                return alias[name]
+            if name in local:
+                return None
+            r = repo.resolve(fi.module, name)
+            if r and r[0] == "const":
+                return r
+            return None
+
+        def mutable_default(name: str):
+            a = fn.args
+            pos = a.posonlyargs + a.args
+            for p, d in zip(pos[len(pos) - len(a.defaults):], a.defaults):
+                if p.arg == name and _is_mutable_literal(d):
+                    return d
+            for p, d in zip(a.kwonlyargs, a.kw_defaults):
+                if d is not None and p.arg == name and _is_mutable_literal(d):
+                    return d
+            return None
+
+        def class_level(e: ast.expr):
+            # self.X / cls.X / Class.X where X is assigned a mutable literal in the class body
+            if isinstance(e, ast.Attribute) and isinstance(e.value, ast.Name) and fi.cls is not None:
+                owner = e.value.id
+                first = fn.args.args[0].arg if fn.args.args else None
+                if owner == first or owner == fi.cls.name:
+                    for st in fi.cls.node.body:
+                        if isinstance(st, (ast.Assign, ast.AnnAssign)):
+                            tg = st.targets[0] if isinstance(st, ast.Assign) else st.target
+                            if isinstance(tg, ast.Name) and tg.id == e.attr and st.value is not None and _is_mutable_literal(st.value):
+                                # instance attribute of the same name assigned in __init__ shadows it
+                                init = fi.cls.methods.get("__init__")
+                                if init and any(isinstance(x, ast.Attribute) and isinstance(x.ctx, ast.Store) and x.attr == e.attr
+                                                for x in ast.walk(init.node)):
+                                    return None
+                                return st
+            return None
+
+        bad: list[tuple[ast.AST, str]] = []
+        for n in own_walk(fn):
+            if isinstance(n, (ast.Global, ast.Nonlocal)):
+                bad.append((n, f"`{norm(n)}`: function rebinds shared state"))
+            tgts = []
+            if isinstance(n, ast.Assign):
+                tgts = n.targets
+            elif isinstance(n, (ast.AugAssign, ast.AnnAssign)):
+                tgts = [n.target]
+            elif isinstance(n, ast.Delete):
+                tgts = n.targets
+            for t in tgts:
+                for sub in ([t] if not isinstance(t, (ast.Tuple, ast.List)) else t.elts):
+                    if isinstance(sub, (ast.Subscript, ast.Attribute)):
+                        n_sites += 1
+                        rn = _root_name(sub)
+                        if rn:
+                            mo = module_object(rn)
+                            if mo is not None:
+                                bad.append((n, f"store into module-level object {mo[1].name}.{mo[2]}"))
+                            r = repo.resolve(fi.module, rn) if rn not in local else None
+                            if r and r[0] in ("mod", "class", "extmod"):
+                                bad.append((n, f"store to an attribute of {r[0]} {rn}"))
+                            if isinstance(sub, ast.Subscript) and mutable_default(rn) is not None:
+                                bad.append((n, f"store into mutable default argument {rn}"))
+                        base = sub.value if isinstance(sub, ast.Subscript) else None
+                        if base is not None and class_level(base) is not None:
+                            bad.append((n, f"store into class-level container {norm(base)}"))
+                    elif isinstance(sub, ast.Name) and isinstance(n, ast.AugAssign):
+                        mo = module_object(sub.id) if sub.id not in local - set(alias) else None
+                        if sub.id in alias and isinstance(n.op, (ast.Add, ast.BitOr)):
+                            bad.append((n, f"in-place update of module-level object via alias {sub.id}"))
+            if isinstance(n, ast.Call) and isinstance(n.func, ast.Attribute) and n.func.attr in MUTATORS:
+                n_sites += 1
+                recv = n.func.value
+                rn = _root_name(recv)
+                if rn:
+                    mo = module_object(rn)
+                    if mo is not None:
+                        bad.append((n, f"`.{n.func.attr}()` mutates module-level object {mo[1].name}.{mo[2]}"))
+                    if isinstance(recv, ast.Name) and mutable_default(rn) is not None:
+                        bad.append((n, f"`.{n.func.attr}()` mutates mutable default argument {rn}"))
+                if class_level(recv) is not None:
+                    bad.append((n, f"`.{n.func.attr}()` mutates class-level container {norm(recv)}"))
+        res.inst(fi.fq, "no shared-state write", "fail" if bad else "ok")
+        for n, msg in bad:
+            res.fail(Finding("R-GLOBAL", fi.module.rel, fi.qualname, norm(n), msg, line=getattr(n, "lineno", None)))
+    return n_sites
+
+
+# --------------------------------------------------------------------------- R-COPY
+
+
+def _fresh_graph_expr(ctx, fi: FuncInfo, e: ast.expr, depth=0) -> bool:
+    """expression certainly denotes a graph object created inside this call"""
+    if depth > 4:
+        return False
+    if isinstance(e, ast.Call):
+        r = ctx.repo.resolve_dotted(fi.module, e.func)
+        if r and r[0] == "ext" and r[1] in ("networkx.Graph", "networkx.convert_node_labels_to_integers"):
+            return True
+        if r and r[0] == "ext" and r[1] == "networkx.relabel_nodes":
+            c = kwarg(e, "copy")
+            return c is None or (isinstance(c, ast.Constant) and c.value is True)
+        if isinstance(e.func, ast.Attribute) and e.func.attr == "copy" and not e.args:
+            return True
+        if r and r[0] == "func":
+            rets = [n.value for n in own_walk(r[1].node) if isinstance(n, ast.Return) and n.value is not None]
+            return bool(rets) and all(_fresh_graph_expr(ctx, r[1], x, depth + 1) for x in rets)
+        return False
+    if isinstance(e, ast.Name):
+        d = single_def(fi.node, e.id)
+        return d is not None and _fresh_graph_expr(ctx, fi, d, depth + 1)
+    return False
+
+
+@rule("R-COPY")
+def r_copy(ctx) -> RuleResult:
+    res = RuleResult("R-COPY", "every nx.relabel_nodes / convert_node_labels_to_integers in a public closure works on a copy (copy=True literal or default) or on a provably fresh graph")
+    fis = all_public_closure(ctx)
+    n = 0
+    for cs in ext_calls(ctx, fis, names={"networkx.relabel_nodes"}):
+        n += 1
+        c = kwarg(cs.node, "copy")
+        if c is None and len(cs.node.args) >= 3:
+            c = cs.node.args[2]
+        ok = c is None or (isinstance(c, ast.Constant) and c.value is True)
+        if not ok:
+            ok = bool(cs.node.args) and _fresh_graph_expr(ctx, cs.caller, cs.node.args[0])
+        res.inst(cs.caller.fq, short(cs.node), "ok" if ok else "fail")
+        if not ok:
+            res.fail(Finding("R-COPY", cs.caller.module.rel, cs.caller.qualname, norm(cs.node),
+                             "relabel_nodes with copy not provably True on a graph that is not provably fresh: the caller's graph is renamed in place",
+                             line=cs.node.lineno))
+    if n == 0:
+        raise AnalysisError("R-COPY: no relabel_nodes site found in the public closures (anchor vanished)")
+    res.counts = {"relabel_sites": n}
+    res.trusted = ["networkx.relabel_nodes default copy=True (re-derived from the installed source in the thorough tier)"]
+    return res
+
+
+# --------------------------------------------------------------------------- R-NONDET / R-SEED
+
+NONDET_PREFIX = ("random.", "secrets.", "uuid.", "numpy.random.")
+NONDET_NAMES = {"time.time", "time.time_ns", "time.monotonic", "time.perf_counter", "time.process_time", "time.localtime",
+                "time.gmtime", "time.ctime", "time.strftime", "datetime.datetime.now", "datetime.datetime.utcnow",
+                "datetime.datetime.today", "datetime.date.today", "os.urandom", "os.getpid", "os.getenv", "os.environ.get",
+                "os.times", "os.getcwd", "threading.get_ident", "platform.node", "socket.gethostname"}
+NONDET_BUILTINS = {"id", "hash", "input"}
+RNG_STATE_SETTERS = {"random.seed"}
+CLOCK = {"datetime.datetime.now", "datetime.datetime.utcnow", "datetime.datetime.today", "datetime.date.today",
+         "time.time", "time.localtime", "time.strftime", "time.gmtime", "time.ctime"}
+
+
+def nondet_source(ctx, fi: FuncInfo, n: ast.AST) -> Optional[str]:
+    if isinstance(n, ast.Call):
+        r = ctx.repo.resolve_dotted(fi.module, n.func)
+        if r and r[0] == "ext":
+            q = r[1]
+            if q in RNG_STATE_SETTERS:
+                return None
+            if q.startswith(NONDET_PREFIX) or q in NONDET_NAMES:
+                return q
+        if r and r[0] == "builtin" and r[1] in NONDET_BUILTINS:
+            return r[1]
+    if isinstance(n, (ast.Attribute, ast.Subscript)):
+        base = n.value if isinstance(n, ast.Subscript) else n
+        r = ctx.repo.resolve_dotted(fi.module, base) if isinstance(base, (ast.Name, ast.Attribute)) else None
+        if r and r[0] == "ext" and r[1] in ("os.environ", "sys.argv", "sys.flags.hash_randomization"):
+            return r[1]
+    return None
+
+
+class NondetFlow:
+    """may-flow of nondeterministic values inside one function, with
+    interprocedural summaries (returns-nondet, taints-parameter)."""
+
+    SINK_EXEMPT_CALLS = {"print", "logging.debug", "logging.info", "logging.warning", "logging.error", "warnings.warn"}
+
+    def __init__(self, ctx):
+        self.ctx = ctx
+        self.summ: dict[str, dict] = {}
+        self.stack: set[str] = set()
+
+    def summary(self, fi: FuncInfo) -> dict:
+        if fi.fq in self.summ:
+            return self.summ[fi.fq]
+        if fi.fq in self.stack:
+            return {"ret": [], "params": {}}
+        self.stack.add(fi.fq)
+        try:
+            s = self._analyse(fi)
+        finally:
+            self.stack.discard(fi.fq)
+        self.summ[fi.fq] = s
+        return s
+
+    def _analyse(self, fi: FuncInfo) -> dict:
+        ctx = self.ctx
+        fn = fi.node
+        params = params_of(fn)
+        # origins: name -> list of (source description, ast node)
+        tainted: dict[str, list] = {}
+
+        def expr_origins(e: ast.AST) -> list:
+            out = []
+            for n in own_walk(e):
+                src = nondet_source(ctx, fi, n)
+                if src:
+                    out.append((src, fi, n))
+                if isinstance(n, ast.Name) and n.id in tainted and isinstance(n.ctx, ast.Load):
+                    out += tainted[n.id]
+                if isinstance(n, ast.Call):
+                    cs = ctx.cg.resolve_call(fi, n, ctx.cg.local_types(fi), set(params))
+                    if cs.kind == "tucan":
+                        out += self.summary(cs.target)["ret"]
+            return out
+
+        changed = True
+        rounds = 0
+        while changed and rounds < 8:
+            changed = False
+            rounds += 1
+
+            def taint(name, origins):
+                nonlocal changed
+                if not origins:
+                    return
+                cur = tainted.setdefault(name, [])
+                for o in origins:
+                    if not any(o[2] is c[2] for c in cur):
+                        cur.append(o)
+                        changed = True
+            for n in own_walk(fn):
+                if isinstance(n, ast.Assign):
+                    o = expr_origins(n.value)
+                    for t in n.targets:
+                        for nm in ([t.id] if isinstance(t, ast.Name) else [_root_name(t)] if isinstance(t, (ast.Subscript, ast.Attribute)) else
+                                   [x.id for x in ast.walk(t) if isinstance(x, ast.Name)]):
+                            if nm:
+                                taint(nm, o)
+                elif isinstance(n, ast.AnnAssign) and n.value is not None:
+                    nm = n.target.id if isinstance(n.target, ast.Name) else _root_name(n.target)
+                    if nm:
+                        taint(nm, expr_origins(n.value))
+                elif isinstance(n, ast.AugAssign):
+                    nm = n.target.id if isinstance(n.target, ast.Name) else _root_name(n.target)
+                    if nm:
+                        taint(nm, expr_origins(n.value))
+                elif isinstance(n, ast.NamedExpr):
+                    taint(n.target.id, expr_origins(n.value))
+                elif isinstance(n, (ast.For, ast.comprehension)):
+                    o = expr_origins(n.iter)
+                    for x in ast.walk(n.target):
+                        if isinstance(x, ast.Name):
+                            taint(x.id, o)
+                elif isinstance(n, ast.Call):
+                    cs = ctx.cg.resolve_call(fi, n, ctx.cg.local_types(fi), set(params))
+                    if cs.kind == "tucan":
+                        s = self.summary(cs.target)
+                        tparams = params_of(cs.target.node)
+                        off = 1 if cs.target.cls is not None and isinstance(n.func, ast.Attribute) else 0
+                        for i, a in enumerate(n.args):
+                            pi = i + off
+                            if pi < len(tparams):
+                                # callee taints this parameter on its own, or passes our tainted args into it
+                                o = list(s["params"].get(tparams[pi], []))
+                                rn = _root_name(a) if isinstance(a, (ast.Name, ast.Subscript, ast.Attribute)) else None
+                                if rn:
+                                    taint(rn, o)
+                    elif cs.kind == "ext" and cs.target == "random.shuffle" and n.args:
+                        rn = _root_name(n.args[0])
+                        if rn:
+                            taint(rn, [("random.shuffle", fi, n)])
+                    elif isinstance(n.func, ast.Attribute) and n.func.attr in MUTATORS | {"write", "writelines"}:
+                        rn = _root_name(n.func.value)
+                        o = []
+                        for a in list(n.args) + [k.value for k in n.keywords]:
+                            o += expr_origins(a)
+                        if rn:
+                            taint(rn, o)
+        ret = []
+        for n in own_walk(fn):
+            if isinstance(n, ast.Return) and n.value is not None:
+                ret += expr_origins(n.value)
+            if isinstance(n, ast.Expr) and isinstance(n.value, (ast.Yield, ast.YieldFrom)) and n.value.value is not None:
+                ret += expr_origins(n.value.value)
+        return {"ret": ret, "params": {p: tainted[p] for p in params if p in tainted}, "tainted": tainted}
+
+
+def _seed_ok(ctx, fi: FuncInfo) -> tuple[bool, str, Optional[ast.AST]]:
+    """random.seed(<expr over parameters only>) dominates every call in `fi` that can draw from the RNG"""
+    fn = fi.node
+    cfg = cfg_of(fn)
+    params = set(params_of(fn))
+    seeds = []
+    for n in own_walk(fn):
+        if isinstance(n, ast.Call):
+            r = ctx.repo.resolve_dotted(fi.module, n.func)
+            if r and r[0] == "ext" and r[1] == "random.seed":
+                seeds.append(n)
+    if not seeds:
+        return False, "no random.seed(...) call in the public function", None
+    good = []
+    for s in seeds:
+        if len(s.args) >= 1 and names_in(s.args[0]) and names_in(s.args[0]) <= params and not any(isinstance(x, ast.Call) for x in ast.walk(s.args[0])):
+            good.append(s)
+    if not good:
+        return False, "random.seed is not called with the seed parameter", seeds[0]
+    flow = NondetFlow(ctx)
+
+    def draws(n: ast.AST) -> bool:
+        if not isinstance(n, ast.Call):
+            return False
+        r = ctx.repo.resolve_dotted(fi.module, n.func)
+        if r and r[0] == "ext" and r[1].startswith("random.") and r[1] not in RNG_STATE_SETTERS:
+            return True
+        cs = ctx.cg.resolve_call(fi, n, ctx.cg.local_types(fi), params)
+        if cs.kind == "tucan":
+            clo = ctx.cg.closure([cs.target.fq])
+            for q in clo:
+                for c2 in ctx.cg.sites.get(q, []):
+                    if c2.kind == "ext" and c2.target.startswith("random.") and c2.target not in RNG_STATE_SETTERS:
+                        return True
+        return False
+    draw_nodes = cfg.nodes_where(draws)
+    seed_nodes = [cfg.stmt_node_containing(s) for s in good]
+    for d in draw_nodes:
+        if not any(sn is not None and sn != d and cfg.dominates(sn, d) for sn in seed_nodes):
+            return False, "an RNG draw is not dominated by random.seed(<seed parameter>)", cfg.ast.get(d)
+    # a later re-seed from something else than the parameter would break reproducibility
+    for s in seeds:
+        if s not in good:
+            return False, "random.seed called with something other than the seed parameter", s
+    return True, f"{len(draw_nodes)} drawing statement(s) dominated by {short(good[0])}", good[0]
+
+
+@rule("R-SEED")
+def r_seed(ctx) -> RuleResult:
+    res = RuleResult("R-SEED", "in the permutation helper, random.seed(<seed parameter>) dominates every RNG draw")
+    fi = entry(ctx, "permute")
+    ok, why, node = _seed_ok(ctx, fi)
+    res.inst(fi.fq, why, "ok" if ok else "fail")
+    if not ok:
+        res.fail(Finding("R-SEED", fi.module.rel, fi.qualname, norm(node) if node is not None else "random.seed",
+                         f"{why}: the same seed no longer gives the same permutation", line=getattr(node, "lineno", None)))
+    return res
+
+
+def _header_timestamp_ok(ctx, origin) -> tuple[bool, str]:
+    """the clock value may reach the output only as part of the 2nd line of the header block:
+    in its function it flows into exactly one `<lines>.append(...)`, that append is the second
+    straight-line append to the list parameter, and the function is the first thing called on
+    the freshly created list in the public writer."""
+    src, fi, node = origin
+    fn = fi.node
+    params = params_of(fn)
+    if not params:
+        return False, "clock read outside a line-emitting helper"
+    lst = params[0]
+    appends = []
+    for st in fn.body:
+        for n in own_walk(st):
+            if isinstance(n, ast.Call) and isinstance(n.func, ast.Attribute) and n.func.attr == "append" \
+                    and isinstance(n.func.value, ast.Name) and n.func.value.id == lst:
+                if not isinstance(st, ast.Expr):
+                    return False, "header lines are appended under control flow"
+                appends.append(n)
+    hit = [i for i, a in enumerate(appends) if any(x is node for x in ast.walk(a))]
+    if len(hit) != 1:
+        return False, "clock value does not flow directly into exactly one appended line"
+    # any other use of a variable tainted by the clock?
+    flow = NondetFlow(ctx)
+    t = flow.summary(fi).get("tainted", {})
+    others = [k for k, v in t.items() if k != lst and any(o[2] is node for o in v)]
+    if others:
+        return False, f"clock value is also stored in {others}"
+    if hit[0] != 1:
+        return False, f"clock value is in header line {hit[0] + 1}, the format's timestamp field is in line 2"
+    w = entry(ctx, "write")
+    # in the writer: list created empty, this helper is the first statement using it
+    first_use = None
+    for st in w.node.body:
+        if isinstance(st, (ast.Assign, ast.AnnAssign)):
+            continue
+        if isinstance(st, ast.Expr) and isinstance(st.value, ast.Constant):
+            continue
+        first_use = st
+        break
+    if not (isinstance(first_use, ast.Expr) and isinstance(first_use.value, ast.Call)):
+        return False, "writer does not start with the header helper"
+    cs = ctx.cg.resolve_call(w, first_use.value, ctx.cg.local_types(w), set(params_of(w.node)))
+    if not (cs.kind == "tucan" and cs.target.fq == fi.fq):
+        return False, "header helper is not the first call of the writer"
+    return True, "timestamp confined to header line 2"
+
+
+@rule("R-NONDET")
+def r_nondet(ctx) -> RuleResult:
+    res = RuleResult("R-NONDET", "no value from random/time/environment/id/hash sources reaches the result of a public operation (named exceptions: molfile header timestamp; seeded RNG of the permutation helper)")
+    flow = NondetFlow(ctx)
+    n_sources = 0
+    seen_src = set()
+    for key in PUBLIC:
+        fi = entry(ctx, key)
+        clo = closure(ctx, key)
+        for f in clo:
+            for n in own_walk(f.node):
+                s = nondet_source(ctx, f, n)
+                if s and id(n) not in seen_src:
+                    seen_src.add(id(n))
+                    n_sources += 1
+        s = flow.summary(fi)
+        origins = list(s["ret"])
+        for p, o in s["params"].items():
+            origins += o
+        uniq = []
+        for o in origins:
+            if not any(o[2] is u[2] for u in uniq):
+                uniq.append(o)
+        verdict = "ok"
+        for o in uniq:
+            src, ofi, node = o
+            accepted = None
+            if key == "write" and src in CLOCK:
+                ok, why = _header_timestamp_ok(ctx, o)
+                accepted = why if ok else None
+                if not ok:
+                    res.fail(Finding("R-NONDET", ofi.module.rel, ofi.qualname, norm(node),
+                                     f"clock value reaches the written molfile outside the header timestamp ({why})",
+                                     line=node.lineno, path=[src, f"{PUBLIC[key]} result"]))
+                    verdict = "fail"
+                    continue
+            elif key == "permute" and src.startswith("random."):
+                ok, why, _ = _seed_ok(ctx, fi)
+                accepted = "RNG seeded from the seed parameter (R-SEED)" if ok else None
+                if not ok:
+                    res.fail(Finding("R-NONDET", ofi.module.rel, ofi.qualname, norm(node),
+                                     f"unseeded RNG draw reaches the permutation result ({why})", line=node.lineno,
+                                     path=[src, f"{PUBLIC[key]} result"]))
+                    verdict = "fail"
+                    continue
+            if accepted is None:
+                res.fail(Finding("R-NONDET", ofi.module.rel, ofi.qualname, norm(node),
+                                 f"value of nondeterministic source {src} reaches the result of {PUBLIC[key].rsplit('.', 1)[1]}",
+                                 line=getattr(node, "lineno", None), path=[src, f"{ofi.qualname}", f"{PUBLIC[key]} result"]))
+                verdict = "fail"
+            else:
+                res.notes.append(f"{key}: {src} in {ofi.qualname} accepted: {accepted}")
+        res.inst(fi.fq, f"result free of nondeterministic sources ({len(uniq)} flows examined)", verdict)
+    # positive fixture: a clock value returned from a function must be seen by the flow analysis
+    fx_src = "import time\n\ndef _fx():\n    t = time.time()\n    out = []\n    out.append(t)\n    return out\n"
+    fx = Repo(ctx.repo.root, {**ctx.repo.overlay, "tucan/_tsa_fixture_nondet.py": fx_src})
+    sub = type(ctx)(fx, ctx.tier)
+    if not NondetFlow(sub).summary(fx.func("tucan._tsa_fixture_nondet._fx"))["ret"]:
+        raise AnalysisError("R-NONDET self-test: planted clock flow not detected")
+    res.counts = {"source_sites_in_public_closures": n_sources, "public_operations": len(PUBLIC)}
+    return res
+
+
+# --------------------------------------------------------------------------- R-RETRY
+
+
+def _eval_enforce(e: ast.expr, edges: int, density: float, env: dict, fi, ctx):
+    """partial evaluation of the enforce condition over (number of edges, density)"""
+    if isinstance(e, ast.BoolOp):
+        vals = [_eval_enforce(v, edges, density, env, fi, ctx) for v in e.values]
+        return all(vals) if isinstance(e.op, ast.And) else any(vals)
+    if isinstance(e, ast.UnaryOp) and isinstance(e.op, ast.Not):
+        return not _eval_enforce(e.operand, edges, density, env, fi, ctx)
+    if isinstance(e, ast.Compare):
+        left = _eval_enforce(e.left, edges, density, env, fi, ctx)
+        for op, c in zip(e.ops, e.comparators):
+            right = _eval_enforce(c, edges, density, env, fi, ctx)
+            ok = {ast.Eq: left == right, ast.NotEq: left != right, ast.Lt: left < right, ast.LtE: left <= right,
+                  ast.Gt: left > right, ast.GtE: left >= right}.get(type(op))
+            if ok is None:
+                raise AnalysisError(f"enforce condition: operator {type(op).__name__}")
+            if not ok:
+                return False
+            left = right
+        return True
+    if isinstance(e, ast.Constant):
+        return e.value
+    if isinstance(e, ast.Name) and e.id in env:
+        return _eval_enforce(env[e.id], edges, density, env, fi, ctx)
+    if isinstance(e, ast.Call):
+        if isinstance(e.func, ast.Attribute) and e.func.attr in ("number_of_edges", "size") and not e.args:
+            return edges
+        r = ctx.repo.resolve_dotted(fi.module, e.func)
+        if r and r[0] == "ext" and r[1] == "networkx.density":
+            return density
+        if r and r[0] == "ext" and r[1] == "networkx.number_of_edges":
+            return edges
+        if isinstance(e.func, ast.Name) and e.func.id == "len" and e.args and isinstance(e.args[0], ast.Attribute) and e.args[0].attr == "edges":
+            return edges
+    raise AnalysisError(f"enforce condition: cannot evaluate `{short(e)}`")
+
+
+@rule("R-RETRY")
+def r_retry(ctx) -> RuleResult:
+    res = RuleResult("R-RETRY", "permutation helper: when the graph has >= 2 edges and is not complete, `return` is reachable only over the false edge of `<arg>.edges == <result>.edges`")
+    fi = entry(ctx, "permute")
+    fn = fi.node
+    cfg = cfg_of(fn)
+    params = params_of(fn)
+    if not params:
+        raise AnalysisError("permute_molecule has no parameter")
+    m = params[0]
+    rets = [n for n in own_walk(fn) if isinstance(n, ast.Return)]
+    if not rets:
+        raise AnalysisError("permute_molecule has no return")
+    env = {}
+    for name, defs in assigned_names(fn).items():
+        if len(defs) == 1 and isinstance(defs[0], ast.Assign):
+            env[name] = defs[0].value
+
+    def is_edge_eq(test: ast.expr, var: str) -> Optional[bool]:
+        """True if test is `<m>.edges == <var>.edges` (either order); returns polarity: True for ==, False for !="""
+        if isinstance(test, ast.Compare) and len(test.ops) == 1 and isinstance(test.ops[0], (ast.Eq, ast.NotEq)):
+            a, b = test.left, test.comparators[0]
+
+            def edge_of(x):
+                if isinstance(x, ast.Attribute) and x.attr == "edges" and isinstance(x.value, ast.Name):
+                    return x.value.id
+                if isinstance(x, ast.Call) and isinstance(x.func, ast.Attribute) and x.func.attr == "edges" and not x.args and isinstance(x.func.value, ast.Name):
+                    return x.func.value.id
+                # set(m.edges) / sorted(m.edges) / list(...)
+                if isinstance(x, ast.Call) and isinstance(x.func, ast.Name) and x.func.id in ("set", "frozenset", "sorted", "list") and x.args:
+                    return edge_of(x.args[0])
+                return None
+            ea, eb = edge_of(a), edge_of(b)
+            if {ea, eb} == {m, var} and ea != eb:
+                return isinstance(test.ops[0], ast.Eq)
+        return None
+
+    for ret in rets:
+        if not isinstance(ret.value, ast.Name):
+            res.inst(fi.fq, short(ret), "fail")
+            res.fail(Finding("R-RETRY", fi.module.rel, fi.qualname, norm(ret), "returned value is not the checked candidate variable", line=ret.lineno))
+            continue
+        var = ret.value.id
+        rn = cfg.node_of(ret)
+        # guard tests: nodes T with is_edge_eq; the "accepting" edge is false for ==, true for !=
+        guards = {}
+        for n, a in cfg.ast.items():
+            if cfg.kind[n] == "test" and hasattr(a, "test"):
+                pol = is_edge_eq(a.test, var)
+                if pol is not None:
+                    guards[n] = "false" if pol else "true"
+        # enforce tests: `if <cond>` whose cond evaluates True for (edges>=2, density<1)
+        enforce_nodes = {}
+        for n, a in cfg.ast.items():
+            if cfg.kind[n] == "test" and hasattr(a, "test") and n not in guards:
+                try:
+                    vals = {(e, d): bool(_eval_enforce(a.test, e, d, env, fi, ctx)) for e, d in
+                            ((0, 0.0), (1, 1.0), (1, 0.3), (2, 0.5), (2, 0.67), (3, 1.0), (3, 0.5), (6, 0.4), (10, 0.99))}
+                except AnalysisError:
+                    continue
+                enforce_nodes[n] = vals
+        # Remove from the CFG: the accepting edges of guards, and the false edges of enforce tests whose
+        # condition holds on all of the property's domain.  If the return is still reachable, some path
+        # returns a candidate without the edge-set check.
+        g = cfg.g.copy()
+        must = [(e, d) for (e, d) in ((2, 0.5), (2, 0.67), (3, 0.5), (6, 0.4), (10, 0.99))]
+        for n, acc in guards.items():
+            for _, t, d in list(g.out_edges(n, data=True)):
+                if d.get("label") in (acc, "both"):
+                    # after the accepting edge the candidate must not be reassigned before return: checked below
+                    g.remove_edge(n, t)
+        for n, vals in enforce_nodes.items():
+            if all(vals[k] for k in must):
+                for _, t, d in list(g.out_edges(n, data=True)):
+                    if d.get("label") == "false":
+                        g.remove_edge(n, t)
+        import networkx as nx
+        reach = rn in nx.descendants(g, cfg.ENTRY)
+        ok = bool(guards) and not reach
+        why = ""
+        if not guards:
+            why = f"no test comparing {m}.edges with {var}.edges guards the return"
+        elif reach:
+            p = nx.shortest_path(g, cfg.ENTRY, rn)
+            why = "a path reaches the return without passing the changed-edge-set test: " + " ; ".join(cfg.describe(x) for x in p[1:])
+        # between the accepting edge and the return the candidate is not reassigned
+        if ok:
+            for n, acc in guards.items():
+                for _, t, d in cfg.g.out_edges(n, data=True):
+                    if d.get("label") in (acc, "both"):
+                        # nodes on paths t..rn that avoid guards
+                        sub = cfg.g.subgraph([x for x in cfg.g.nodes if x not in guards or x == n])
+                        on = ({t} | nx.descendants(sub, t)) & ({rn} | nx.ancestors(sub, rn)) if t != rn else set()
+                        for x in on:
+                            a = cfg.ast.get(x)
+                            if a is not None and isinstance(a, (ast.Assign, ast.AugAssign)) and var in {nm for tg in (a.targets if isinstance(a, ast.Assign) else [a.target]) for nm in names_in(tg)}:
+                                ok = False
+                                why = f"candidate {var} is reassigned after the edge-set test ({cfg.describe(x)})"
+        res.inst(fi.fq, f"{short(ret)} guarded by {[cfg.describe(n) for n in guards]}", "ok" if ok else "fail",
+                 detail=f"enforce tests: {[cfg.describe(n) for n in enforce_nodes]}")
+        if not ok:
+            res.fail(Finding("R-RETRY", fi.module.rel, fi.qualname, norm(ret), why, line=ret.lineno))
+    return res
+
+
+# --------------------------------------------------------------------------- R-CARRY / R-LABELORDER
+
+
+def _trace_view(fi: FuncInfo, e: ast.expr, depth=0):
+    """-> (kind, graph name, data?, sorted?, key?) for an expression that (through list/sorted/
+    local single-definition variables) is `<g>.nodes(...)` / `<g>.edges(...)` / `<g>.nodes` / `<g>.edges`"""
+    is_sorted = False
+    sort_key = None
+    while True:
+        if isinstance(e, ast.Call) and isinstance(e.func, ast.Name) and e.func.id in ("list", "tuple", "iter") and e.args:
+            e = e.args[0]
+            continue
+        if isinstance(e, ast.Call) and isinstance(e.func, ast.Name) and e.func.id == "sorted" and e.args:
+            is_sorted = True
+            sort_key = kwarg(e, "key")
+            if kwarg(e, "reverse") is not None and not (isinstance(kwarg(e, "reverse"), ast.Constant) and kwarg(e, "reverse").value is False):
+                sort_key = ast.Constant("reverse")
+            e = e.args[0]
+            continue
+        if isinstance(e, ast.Name) and depth < 5:
+            d = single_def(fi.node, e.id)
+            if d is None:
+                return None
+            r = _trace_view(fi, d, depth + 1)
+            if r is None:
+                return None
+            k, g, data, s, key = r
+            return (k, g, data, s or is_sorted, key if s else sort_key)
+        break
+    view = None
+    data = False
+    if isinstance(e, ast.Call) and isinstance(e.func, ast.Attribute) and e.func.attr in ("nodes", "edges") and isinstance(e.func.value, ast.Name):
+        view = (e.func.attr, e.func.value.id)
+        d = kwarg(e, "data")
+        if d is None and e.args:
+            d = e.args[0]
+        data = isinstance(d, ast.Constant) and d.value is True
+    elif isinstance(e, ast.Call) and isinstance(e.func, ast.Attribute) and e.func.attr == "data" and isinstance(e.func.value, ast.Attribute) \
+            and e.func.value.attr in ("nodes", "edges") and isinstance(e.func.value.value, ast.Name):
+        view = (e.func.value.attr, e.func.value.value.id)
+        d = e.args[0] if e.args else kwarg(e, "data")
+        data = d is None or (isinstance(d, ast.Constant) and d.value is True)
+    elif isinstance(e, ast.Attribute) and e.attr in ("nodes", "edges") and isinstance(e.value, ast.Name):
+        view = (e.attr, e.value.id)
+    elif isinstance(e, ast.Call) and isinstance(e.func, ast.Attribute) and e.func.attr == "items" and isinstance(e.func.value, ast.Attribute) \
+            and e.func.value.attr == "nodes":
+        view = ("nodes", e.func.value.value.id if isinstance(e.func.value.value, ast.Name) else None)
+        data = True
+    if view is None:
+        return None
+    return (view[0], view[1], data, is_sorted, sort_key)
+
+
+def _rebuild_sites(ctx):
+    """(function, graph variable, add_nodes_from call, add_edges_from call) for graphs built from scratch"""
+    out = []
+    for fi in closure(ctx, "permute"):
+        fn = fi.node
+        for name, defs in assigned_names(fn).items():
+            for d in defs:
+                v = d.value if isinstance(d, (ast.Assign, ast.AnnAssign)) else None
+                if isinstance(v, ast.Call):
+                    r = ctx.repo.resolve_dotted(fi.module, v.func)
+                    if r and r[0] == "ext" and r[1] == "networkx.Graph" and not v.args:
+                        addn = [n for n in own_walk(fn) if isinstance(n, ast.Call) and isinstance(n.func, ast.Attribute)
+                                and n.func.attr in ("add_nodes_from", "add_node") and isinstance(n.func.value, ast.Name) and n.func.value.id == name]
+                        adde = [n for n in own_walk(fn) if isinstance(n, ast.Call) and isinstance(n.func, ast.Attribute)
+                                and n.func.attr in ("add_edges_from", "add_edge", "add_weighted_edges_from") and isinstance(n.func.value, ast.Name) and n.func.value.id == name]
+                        out.append((fi, name, addn, adde))
+    return out
+
+
+@rule("R-CARRY")
+def r_carry(ctx) -> RuleResult:
+    res = RuleResult("R-CARRY", "permutation helper: a graph rebuilt from another takes its nodes from nodes(data=True) and its edges from edges(data=True) of the source (all attributes carried)")
+    sites_ = _rebuild_sites(ctx)
+    relabels = list(ext_calls(ctx, closure(ctx, "permute"), names={"networkx.relabel_nodes"}))
+    if not sites_ and not relabels:
+        raise AnalysisError("R-CARRY: neither a graph rebuild nor a relabel found in the permutation helper (anchor vanished)")
+    for fi, g, addn, adde in sites_:
+        for kind, calls, want in (("nodes", addn, "nodes"), ("edges", adde, "edges")):
+            if not calls:
+                res.inst(fi.fq, f"{g}: {kind} added", "fail")
+                res.fail(Finding("R-CARRY", fi.module.rel, fi.qualname, f"{g} = nx.Graph()", f"rebuilt graph never receives the source's {kind}", line=fi.node.lineno))
+                continue
+            for c in calls:
+                if c.func.attr in ("add_node", "add_edge"):
+                    raise AnalysisError(f"R-CARRY: element-wise rebuild `{short(c)}` is not an accepted idiom")
+                tv = _trace_view(fi, c.args[0]) if c.args else None
+                if tv is None:
+                    raise AnalysisError(f"R-CARRY: cannot trace the source of `{short(c)}`")
+                k, src, data, _, _ = tv
+                ok = (k == want) and data
+                res.inst(fi.fq, short(c), "ok" if ok else "fail", detail=f"source {src}.{k}(data={data})")
+                if not ok:
+                    res.fail(Finding("R-CARRY", fi.module.rel, fi.qualname, norm(c),
+                                     f"rebuilt graph takes its {kind} from {src}.{k} without data: {'atom' if kind == 'nodes' else 'bond'} attributes are dropped"
+                                     if k == want else f"rebuilt graph takes its {kind} from {src}.{k}", line=c.lineno))
+    for cs in relabels:
+        res.inst(cs.caller.fq, short(cs.node), "ok", detail="relabel_nodes copies node and edge data (summary)")
+    res.trusted = ["networkx: add_nodes_from/add_edges_from with (.., dict) tuples store the attribute dicts; relabel_nodes(copy=True) carries all data"]
+    return res
+
+
+@rule("R-LABELORDER")
+def r_labelorder(ctx) -> RuleResult:
+    res = RuleResult("R-LABELORDER", "permutation helper: the returned graph lists its atoms in ascending label order (nodes inserted from sorted(...nodes(data=True)))")
+    fi0 = entry(ctx, "permute")
+    # the function producing the value returned by the public helper
+    sites_ = _rebuild_sites(ctx)
+    if not sites_:
+        raise AnalysisError("R-LABELORDER: no graph rebuild in the permutation helper; cannot establish node order")
+    # every return of the public helper must come (through tucan calls) from a function whose returned graph is a rebuild site
+    rebuilt = {(fi.fq, g) for fi, g, _, _ in sites_}
+
+    def returns_rebuilt(fi: FuncInfo, depth=0) -> bool:
+        if depth > 5:
+            return False
+        rets = [n.value for n in own_walk(fi.node) if isinstance(n, ast.Return) and n.value is not None]
+        if not rets:
+            return False
+        for r in rets:
+            if isinstance(r, ast.Name):
+                if (fi.fq, r.id) in rebuilt:
+                    continue
+                defs = assigned_names(fi.node).get(r.id, [])
+                vals = [d.value for d in defs if isinstance(d, ast.Assign)]
+                if not vals or len(vals) != len(defs):
+                    return False
+                for v in vals:
+                    if not (isinstance(v, ast.Call) and _call_returns_rebuilt(fi, v, depth)):
+                        return False
+            elif isinstance(r, ast.Call):
+                if not _call_returns_rebuilt(fi, r, depth):
+                    return False
+            else:
+                return False
+        return True
+
+    def _call_returns_rebuilt(fi, call, depth):
+        cs = ctx.cg.resolve_call(fi, call, ctx.cg.local_types(fi), set(params_of(fi.node)))
+        return cs.kind == "tucan" and returns_rebuilt(cs.target, depth + 1)
+
+    ok0 = returns_rebuilt(fi0)
+    res.inst(fi0.fq, "every returned graph comes from the label-ordered rebuild", "ok" if ok0 else "fail")
+    if not ok0:
+        res.fail(Finding("R-LABELORDER", fi0.module.rel, fi0.qualname, "return", "a returned graph does not come from the rebuild that orders atoms by label", line=fi0.node.lineno))
+    for fi, g, addn, adde in sites_:
+        for c in addn:
+            tv = _trace_view(fi, c.args[0]) if c.args else None
+            if tv is None:
+                raise AnalysisError(f"R-LABELORDER: cannot trace `{short(c)}`")
+            k, src, data, is_sorted, key = tv
+            ok = is_sorted and key is None and k == "nodes"
+            res.inst(fi.fq, short(c), "ok" if ok else "fail", detail=f"sorted={is_sorted} key={norm(key) if key is not None else None}")
+            if not ok:
+                res.fail(Finding("R-LABELORDER", fi.module.rel, fi.qualname, norm(c),
+                                 "nodes are not inserted in ascending label order (needs sorted(<g>.nodes(data=True)) without key/reverse)", line=c.lineno))
+        # the first insertion into the fresh graph must be the node insertion (edges first would fix the order)
+        first = None
+        for n in sorted((x for x in own_walk(fi.node) if isinstance(x, ast.Call) and isinstance(x.func, ast.Attribute) and isinstance(x.func.value, ast.Name)
+                         and x.func.value.id == g and x.func.attr.startswith("add_")), key=lambda x: (x.lineno, x.col_offset)):
+            first = n
+            break
+        if first is not None and first.func.attr not in ("add_nodes_from",):
+            res.fail(Finding("R-LABELORDER", fi.module.rel, fi.qualname, norm(first), "edges are inserted before the sorted nodes: node order follows the edge list", line=first.lineno))
+    return res
+
+
+# --------------------------------------------------------------------------- R-FIXPOINT / R-OWNFIRST
+
+
+def _partition_key(ctx) -> str:
+    return ctx.repo.const("tucan.graph_attributes", "PARTITION")
+
+
+def _step_function(ctx) -> FuncInfo:
+    """the one-step refinement function: in closure(canonicalize), the function that writes the PARTITION node attribute"""
+    part = _partition_key(ctx)
+    cands = []
+    for fi in closure(ctx, "canonicalize"):
+        for cs in sites(ctx, fi):
+            if cs.kind == "ext" and cs.target == "networkx.set_node_attributes":
+                nm = cs.node.args[2] if len(cs.node.args) >= 3 else kwarg(cs.node, "name")
+                if nm is not None and try_const(ctx, fi, nm) == part:
+                    cands.append(fi)
+    if len(set(cands)) != 1:
+        raise AnalysisError(f"R-FIXPOINT: expected exactly one function writing the partition attribute, found {[c.fq for c in set(cands)]}")
+    return cands[0]
+
+
+def _is_step_call(ctx, fi: FuncInfo, call: ast.Call, step: FuncInfo) -> Optional[ast.expr]:
+    """if `call` is step(<g>, PARTITION) return <g>"""
+    cs = ctx.cg.resolve_call(fi, call, ctx.cg.local_types(fi), set(params_of(fi.node)))
+    if cs.kind == "tucan" and cs.target.fq == step.fq and call.args:
+        attr = call.args[1] if len(call.args) > 1 else kwarg(call, "attribute")
+        if attr is not None and try_const(ctx, fi, attr) == _partition_key(ctx):
+            return call.args[0]
+    return None
+
+
+@rule("R-FIXPOINT")
+def r_fixpoint(ctx) -> RuleResult:
+    res = RuleResult("R-FIXPOINT", "the refinement driver hands out a partition only when its class count equals that of its one-step refinement (or after >= number_of_nodes rounds)")
+    step = _step_function(ctx)
+    drivers = []
+    for fi in closure(ctx, "canonicalize"):
+        if fi.fq == step.fq:
+            continue
+        for n in own_walk(fi.node):
+            if isinstance(n, ast.Call) and _is_step_call(ctx, fi, n, step) is not None:
+                drivers.append(fi)
+                break
+    if not drivers:
+        raise AnalysisError("R-FIXPOINT: no function refines by the partition attribute (anchor vanished)")
+    for fi in drivers:
+        _check_driver(ctx, fi, step, res)
+    return res
+
+
+def _check_driver(ctx, fi: FuncInfo, step: FuncInfo, res: RuleResult):
+    fn = fi.node
+    cfg = cfg_of(fn)
+    outs = []   # (cfg node, expr) for yield / return of a value
+    for n in own_walk(fn):
+        if isinstance(n, ast.Return) and n.value is not None:
+            outs.append((n, n.value))
+        elif isinstance(n, ast.Expr) and isinstance(n.value, ast.Yield) and n.value.value is not None:
+            outs.append((n, n.value.value))
+    recursive_tail = [n for n in own_walk(fn) if isinstance(n, (ast.YieldFrom, ast.Return)) and
+                      isinstance(getattr(n, "value", None), ast.Call) and
+                      ctx.cg.resolve_call(fi, n.value, ctx.cg.local_types(fi), set(params_of(fn))).kind == "tucan" and
+                      ctx.cg.resolve_call(fi, n.value, ctx.cg.local_types(fi), set(params_of(fn))).target.fq == fi.fq]
+    outs = [(n, e) for n, e in outs if not (isinstance(n, ast.Return) and any(n is r for r in recursive_tail))]
+    if not outs:
+        raise AnalysisError(f"R-FIXPOINT: {fi.qualname} neither returns nor yields a partition")
+    defs = assigned_names(fn)
+
+    def step_defs(var: str):
+        """[(assign node, source graph expr)] for `var = step(src, PARTITION)`"""
+        out = []
+        for d in defs.get(var, []):
+            if isinstance(d, ast.Assign) and isinstance(d.value, ast.Call):
+                src = _is_step_call(ctx, fi, d.value, step)
+                if src is not None:
+                    out.append((d, src))
+        return out
+
+    def count_call(e: ast.expr) -> Optional[tuple[str, str]]:
+        """(counting function text, argument variable) for `f(x)` / `len(set(...x...))`"""
+        if isinstance(e, ast.Call) and len(e.args) == 1 and isinstance(e.args[0], ast.Name) and not e.keywords:
+            return (norm(e.func), e.args[0].id)
+        return None
+
+    for node, e in outs:
+        if not isinstance(e, ast.Name):
+            # handing out step(...) directly without a stability test
+            res.inst(fi.fq, short(node), "fail")
+            res.fail(Finding("R-FIXPOINT", fi.module.rel, fi.qualname, norm(node), "a partition is handed out without a stability test", line=node.lineno))
+            continue
+        var = e.id
+        on = cfg.node_of(node)
+        verdict = None
+        why = ""
+        # idiom (i): dominated by the true edge of  count(var) == count(src)  where var = step(src)
+        for tn, ta in cfg.ast.items():
+            if cfg.kind[tn] != "test" or not hasattr(ta, "test"):
+                continue
+            t = ta.test
+            pol = None
+            if isinstance(t, ast.Compare) and len(t.ops) == 1 and isinstance(t.ops[0], (ast.Eq, ast.NotEq)):
+                a, b = count_call(t.left), count_call(t.comparators[0])
+                if a and b and a[0] == b[0] and a[1] != b[1]:
+                    sd = step_defs(var)
+                    other = b[1] if a[1] == var else a[1] if b[1] == var else None
+                    if other is not None and sd and all(isinstance(src, ast.Name) and src.id == other for _, src in sd):
+                        pol = isinstance(t.ops[0], ast.Eq)
+                    else:
+                        # also accept: handing out the *previous* partition when counts are equal (it is stable too)
+                        sd2 = step_defs(other) if other else []
+                        if other and sd2 and all(isinstance(src, ast.Name) and src.id == var for _, src in sd2):
+                            pol = isinstance(t.ops[0], ast.Eq)
+            if pol is None:
+                continue
+            want = "true" if pol else "false"
+            # every path entry -> out node passes edge (tn --want--> ...): remove that edge and test reachability
+            g = cfg.g.copy()
+            for _, tgt, d in list(g.out_edges(tn, data=True)):
+                if d.get("label") in (want, "both"):
+                    g.remove_edge(tn, tgt)
+            import networkx as nx
+            if on not in nx.descendants(g, cfg.ENTRY):
+                # and no redefinition of var/other between test and output
+                verdict = "ok"
+                why = f"guarded by {cfg.describe(tn)} ({want} edge)"
+                break
+        if verdict is None:
+            # idiom (ii): loop `for _ in range(<g>.number_of_nodes())` containing var = step(var) and output after the loop
+            for ln, la in cfg.ast.items():
+                if cfg.kind[ln] == "for" and isinstance(la.iter, ast.Call) and isinstance(la.iter.func, ast.Name) and la.iter.func.id == "range" and len(la.iter.args) == 1:
+                    bound = la.iter.args[0]
+                    bt = norm(bound)
+                    inloop = any(isinstance(x, ast.Assign) and any(d is x for d, _ in step_defs(var)) for x in own_walk(la))
+                    if not inloop:
+                        continue
+                    if ("number_of_nodes()" in bt or bt.startswith("len(")) and not isinstance(bound, ast.Constant):
+                        if cfg.dominates(ln, on):
+                            verdict, why = "ok", f"{bt} refinement rounds"
+                    elif isinstance(bound, ast.Constant):
+                        verdict, why = "fail", f"constant cap of {bound.value} refinement rounds"
+        if verdict is None:
+            sd = step_defs(var)
+            if sd:
+                verdict, why = "fail", "a refinement is handed out with no stability test and no size-bounded iteration"
+            else:
+                raise AnalysisError(f"R-FIXPOINT: cannot relate `{short(node)}` in {fi.qualname} to the refinement step")
+        res.inst(fi.fq, short(node), verdict, detail=why)
+        if verdict != "ok":
+            res.fail(Finding("R-FIXPOINT", fi.module.rel, fi.qualname, norm(node), why + ": the returned partition need not be stable", line=node.lineno))
+    # the iteration must continue from the refined partition: the recursive call / loop back edge feeds step's result
+    for r in recursive_tail:
+        arg = r.value.args[0] if r.value.args else None
+        ok = isinstance(arg, ast.Name) and bool(step_defs(arg.id))
+        res.inst(fi.fq, short(r), "ok" if ok else "fail", detail="continues from the refined partition")
+        if not ok:
+            res.fail(Finding("R-FIXPOINT", fi.module.rel, fi.qualname, norm(r), "refinement continues from something other than the refined partition", line=r.lineno))
+
+
+@rule("R-OWNFIRST")
+def r_ownfirst(ctx) -> RuleResult:
+    res = RuleResult("R-OWNFIRST", "refinement key = (own value, sorted neighbour values); class id = rank among the sorted set of keys (dense 0..k-1)")
+    step = _step_function(ctx)
+    fn = step.node
+    params = params_of(fn)
+    # 1. key function: the tucan function called per atom with (m, atom, attribute)
+    keyfs = []
+    for cs in sites(ctx, step):
+        if cs.kind == "tucan" and len(cs.node.args) >= 3:
+            keyfs.append(cs.target)
+    keyfs = list({k.fq: k for k in keyfs}.values())
+    if len(keyfs) != 1:
+        raise AnalysisError(f"R-OWNFIRST: expected one key function called by {step.qualname}, found {[k.fq for k in keyfs]}")
+    kf = keyfs[0]
+    kp = params_of(kf.node)
+    if len(kp) < 3:
+        raise AnalysisError("R-OWNFIRST: key function signature changed")
+    g, atom, attr = kp[:3]
+    rets = [n for n in own_walk(kf.node) if isinstance(n, ast.Return) and n.value is not None]
+    if len(rets) != 1:
+        raise AnalysisError("R-OWNFIRST: key function has several returns")
+    rv = rets[0].value
+
+    def resolve(e, depth=0):
+        if isinstance(e, ast.Name) and depth < 5:
+            d = single_def(kf.node, e.id)
+            if d is not None:
+                return resolve(d, depth + 1)
+        return e
+
+    def own_value(e) -> bool:
+        e = resolve(e)
+        return norm(e) in (f"{g}.nodes[{atom}][{attr}]", f"{g}.nodes[{atom}].get({attr})", f"{g}.nodes({attr})[{atom}]", f"{g}.nodes.data({attr})[{atom}]")
+
+    def sorted_neighbours(e) -> Optional[str]:
+        e = resolve(e)
+        if isinstance(e, ast.Call) and isinstance(e.func, ast.Name) and e.func.id in ("tuple", "list") and e.args:
+            return sorted_neighbours(e.args[0])
+        if isinstance(e, ast.Call) and isinstance(e.func, ast.Name) and e.func.id == "sorted" and e.args:
+            if kwarg(e, "key") is not None:
+                return "sorted with a key function"
+            inner = resolve(e.args[0])
+            if isinstance(inner, (ast.ListComp, ast.GeneratorExp)) and len(inner.generators) == 1 and not inner.generators[0].ifs:
+                gen = inner.generators[0]
+                it = norm(gen.iter)
+                tv = gen.target.id if isinstance(gen.target, ast.Name) else None
+                if it in (f"{g}.neighbors({atom})", f"{g}[{atom}]", f"{g}.adj[{atom}]", f"nx.neighbors({g}, {atom})") and tv and \
+                        norm(inner.elt) in (f"{g}.nodes[{tv}][{attr}]",):
+                    return None
+                return f"neighbour values come from `{it}` / `{norm(inner.elt)}`"
+            return "sorted over an unrecognised sequence"
+        return "neighbour values are not sorted"
+
+    # accepted shapes: tuple([own] + nbrs), (own, *nbrs), tuple([own, *nbrs]), [own] + nbrs, (own,) + tuple(nbrs)
+    shape = resolve(rv)
+    if isinstance(shape, ast.Call) and isinstance(shape.func, ast.Name) and shape.func.id in ("tuple", "list") and shape.args:
+        shape = resolve(shape.args[0])
+    first = rest = None
+    if isinstance(shape, ast.BinOp) and isinstance(shape.op, ast.Add):
+        l = resolve(shape.left)
+        if isinstance(l, (ast.List, ast.Tuple)) and len(l.elts) == 1:
+            first, rest = l.elts[0], shape.right
+    elif isinstance(shape, (ast.Tuple, ast.List)) and len(shape.elts) == 2 and isinstance(shape.elts[1], ast.Starred):
+        first, rest = shape.elts[0], shape.elts[1].value
+    elif isinstance(shape, (ast.Tuple, ast.List)) and len(shape.elts) == 2:
+        first, rest = shape.elts[0], shape.elts[1]      # (own, sorted_tuple): nested but still own-first
+    if first is None:
+        raise AnalysisError(f"R-OWNFIRST: key shape `{short(rv)}` not recognised")
+    ok1 = own_value(first)
+    res.inst(kf.fq, f"key starts with the atom's own value: {short(first)}", "ok" if ok1 else "fail")
+    if not ok1:
+        res.fail(Finding("R-OWNFIRST", kf.module.rel, kf.qualname, norm(rets[0]), "refinement key does not start with the atom's own class: classes may merge across rounds", line=rets[0].lineno))
+    why = sorted_neighbours(rest)
+    res.inst(kf.fq, f"neighbour values sorted: {short(rest)}", "ok" if why is None else "fail")
+    if why is not None:
+        res.fail(Finding("R-OWNFIRST", kf.module.rel, kf.qualname, norm(rets[0]), f"{why}: the key depends on neighbour listing order", line=rets[0].lineno))
+    # 2. ranks: value written under PARTITION is  rank[key]  with rank = {k: i for i, k in enumerate(sorted(set(keys)))}
+    set_call = next(cs.node for cs in sites(ctx, step) if cs.kind == "ext" and cs.target == "networkx.set_node_attributes")
+    ok2, why2 = _dense_rank(ctx, step, set_call)
+    res.inst(step.fq, "class id = rank among sorted(set(keys))", "ok" if ok2 else "fail", detail=why2)
+    if not ok2:
+        res.fail(Finding("R-OWNFIRST", step.module.rel, step.qualname, norm(set_call), why2, line=set_call.lineno))
+    return res
+
+
+def _dense_rank(ctx, fi: FuncInfo, set_call: ast.Call) -> tuple[bool, str]:
+    fn = fi.node
+
+    def resolve(e, depth=0):
+        if isinstance(e, ast.Name) and depth < 6:
+            d = single_def(fn, e.id)
+            if d is not None:
+                return resolve(d, depth + 1)
+        return e
+    vals = resolve(set_call.args[1]) if len(set_call.args) > 1 else None
+    # dict(zip(nodes, partitions))  or {n: p for n, p in zip(..)}
+    parts = None
+    if isinstance(vals, ast.Call) and isinstance(vals.func, ast.Name) and vals.func.id == "dict" and vals.args:
+        z = resolve(vals.args[0])
+        if isinstance(z, ast.Call) and isinstance(z.func, ast.Name) and z.func.id == "zip" and len(z.args) == 2:
+            parts = resolve(z.args[1])
+    elif isinstance(vals, ast.DictComp):
+        z = resolve(vals.generators[0].iter)
+        if isinstance(z, ast.Call) and isinstance(z.func, ast.Name) and z.func.id == "zip" and len(z.args) == 2 and \
+                isinstance(vals.generators[0].target, ast.Tuple) and norm(vals.value) == norm(vals.generators[0].target.elts[1]):
+            parts = resolve(z.args[1])
+        elif isinstance(vals.value, ast.Subscript):
+            parts = vals   # {atom: rank[key(atom)] ...}
+    if parts is None:
+        raise AnalysisError(f"R-OWNFIRST: cannot see how `{short(set_call)}` pairs atoms with classes")
+    # parts = [rank[k] for k in keys]
+    sub = None
+    if isinstance(parts, ast.ListComp) and isinstance(parts.elt, ast.Subscript):
+        sub = parts.elt
+        keys_expr = resolve(parts.generators[0].iter)
+    elif isinstance(parts, ast.DictComp) and isinstance(parts.value, ast.Subscript):
+        sub = parts.value
+        keys_expr = None
+    if sub is None:
+        raise AnalysisError(f"R-OWNFIRST: class values `{short(parts)}` are not rank look-ups")
+    rank = resolve(sub.value)
+    # rank = dict(zip(U, range(len(U))))  |  {k: i for i, k in enumerate(U)}  with U = sorted(set(keys))
+    U = None
+    if isinstance(rank, ast.Call) and isinstance(rank.func, ast.Name) and rank.func.id == "dict" and rank.args:
+        z = resolve(rank.args[0])
+        if isinstance(z, ast.Call) and isinstance(z.func, ast.Name) and z.func.id == "zip" and len(z.args) == 2:
+            a, b = z.args
+            rb = resolve(b)
+            if isinstance(rb, ast.Call) and isinstance(rb.func, ast.Name) and rb.func.id == "list" and rb.args:
+                rb = rb.args[0]
+            if isinstance(rb, ast.Call) and isinstance(rb.func, ast.Name) and rb.func.id == "range" and len(rb.args) == 1 and \
+                    norm(rb.args[0]) == f"len({norm(a)})":
+                U = a
+            elif isinstance(rb, ast.Call) and norm(rb.func) in ("itertools.count", "count") and not rb.args:
+                U = a
+            else:
+                return False, f"ranks `{short(b)}` are not 0..len-1 over `{short(a)}`"
+    elif isinstance(rank, ast.DictComp) and len(rank.generators) == 1:
+        it = resolve(rank.generators[0].iter)
+        tg = rank.generators[0].target
+        if isinstance(it, ast.Call) and isinstance(it.func, ast.Name) and it.func.id == "enumerate" and len(it.args) == 1 and not it.keywords \
+                and isinstance(tg, ast.Tuple) and len(tg.elts) == 2 and norm(rank.key) == norm(tg.elts[1]) and norm(rank.value) == norm(tg.elts[0]):
+            U = it.args[0]
+    if U is None:
+        raise AnalysisError(f"R-OWNFIRST: rank table `{short(rank)}` not recognised")
+    Ur = resolve(U)
+    if not (isinstance(Ur, ast.Call) and isinstance(Ur.func, ast.Name) and Ur.func.id == "sorted" and Ur.args and kwarg(Ur, "key") is None):
+        return False, f"rank table is built over `{short(Ur)}`, not over a sorted sequence: class ids depend on listing order"
+    inner = resolve(Ur.args[0])
+    if not (isinstance(inner, ast.Call) and isinstance(inner.func, ast.Name) and inner.func.id in ("set", "frozenset") and inner.args):
+        return False, f"rank table is built over `{short(inner)}`: duplicates make class ids non-dense"
+    return True, f"rank over sorted(set({short(inner.args[0], 40)}))"
